@@ -178,6 +178,7 @@ class Runner:
         self.problems = []        # gateway well-formedness problems seen (C15)
         self.req_info = {}        # model rid -> (op kind, session ref or None)
         self.conn_sess = {}       # model cid -> session index
+        self.conn_frames, self.conn_accepted, self.conn_closed, self.conn_ponged, self.upgrade_conns = {}, set(), set(), set(), set()
         self.pre, self.post = [], []     # flag snapshots around every stimulus
         self.times = []                  # virtual time (ticks since start) after every stimulus
         self.impl_rid = {}        # model rid -> driver rid
@@ -357,6 +358,8 @@ class Runner:
             self.impl_rid[r] = rid
             sref = op[1] if k in ('poll', 'post', 'upgrade') else (op[2] if k == 'bad' and len(op) > 2 else None)
             self.req_info[r] = (k, sref if k != 'open' else ('new', nsess_before))
+            if k == 'upgrade':
+                self.upgrade_conns.add(self.nc - 1)
             if k == 'upgrade' or (k == 'open' and op[1] == 'websocket'):
                 self.conn_sess[self.nc - 1] = sref if k == 'upgrade' else ('new', nsess_before)
             term = ('(OpReq %s {| r_method := %s; r_transport := %s; r_sid := %s; r_eio4 := %s; r_jsonp := %s; r_upgrade_ws := %s; r_conn_upgrade := %s; '
@@ -364,12 +367,36 @@ class Runner:
                     % (qN(r), q['method'], q['transport'], q['sid'], q['eio4'], q['jsonp'], q['upg'], q['cup'], q['origin'], q['conn'], q['body'], q['connect']))
         elif k == 'frame':
             c = op[1]
+            self.conn_frames.setdefault(c, []).append(tuple(op[2]) if isinstance(op[2], (list, tuple)) else op[2])
             d.ws_send(self.conn_of[c], frame_wire(op[2], self.rng))
             term = '(OpWsFrame %s %s)' % (qN(c), frame_term(op[2]))
         elif k == 'wsclose':
             c = op[1]
             d.ws_close(self.conn_of[c])
+            self.conn_closed.add(c)
             term = '(OpWsClose %s)' % qN(c)
+        elif k == 'cancel':
+            # the task serving WebSocket c is cancelled; a stimulus of the model only while that task waits for a handshake frame
+            c = op[1]
+            fr = self.conn_frames.get(c, [])
+            in_handshake = (c in self.upgrade_conns and c in self.conn_accepted and c not in self.conn_closed and
+                            (fr == [] or (fr == [('ping', True)] and c in self.conn_ponged)))
+            sk = d.sock(self.real_sid(self.conn_sess[c])) if in_handshake and isinstance(self.conn_sess.get(c), int) else None
+            if not in_handshake or sk is None or not sk.connected or sk.upgraded:   # (an 'upgrade' of a session that was opened without 'Connection: upgrade' - finding D17 - is served as a new WebSocket session)
+                self.pre.pop()
+                return
+            d.cancel_ws(self.conn_of[c])
+            self.conn_closed.add(c)
+            term = '(OpCancel %s)' % qN(c)
+        elif k == 'cancelpoll':
+            # the task of the oldest pending long poll of a session is cancelled (asyncio; threads cannot be cancelled)
+            pend = [r for r in sorted(self.req_info) if self.req_info[r] == ('poll', op[1]) and not d.rec[self.impl_rid[r]].get('done')]
+            if not pend:
+                self.pre.pop()
+                return
+            if self.kind == 'asyncio':
+                d.cancel_request(self.impl_rid[pend[0]])
+            term = '(OpCancelPoll %s)' % qN(pend[0])
         elif k in ('send', 'disc', 'transport', 'getsess', 'savesess'):
             a = self.na
             self.na += 1
@@ -402,6 +429,18 @@ class Runner:
         self.ops.append(term)
         self.log.append(op)
         self.outs.append(self._collect())
+        for o in self.outs[-1]:
+            if o[0] == 'wsaccept':
+                self.conn_accepted.add(o[1])
+            elif o[0] == 'wssend' and o[2] == 'pongprobe':
+                self.conn_ponged.add(o[1])
+            elif o[0] == 'wsclose':
+                self.conn_closed.add(o[1])
+            elif o[0] == 'resp' and o[1] in self.req_info and self.req_info[o[1]][0] == 'upgrade':
+                # the request of an upgrade WebSocket ended: its task is gone
+                for c, cid in self.conn_of.items():
+                    if self.d.conns[cid].rid == self.impl_rid.get(o[1]):
+                        self.conn_closed.add(c)
         self.post.append(self.flags())
         self.times.append(round((self.d.now - rt.T0) * TICK))
 
@@ -479,7 +518,7 @@ def explain(runner):
 
 # ----------------------------------------------------------------------------------------------------------
 # random, mostly protocol-following histories
-DEFAULT_WEIGHTS = dict(open=6, open_ws=3, open_rej=2, poll=14, post=12, upgrade=4, frame=14, wsclose=3, send=14, disc=3, disc_all=1, api=4, adv=10, bad=5)
+DEFAULT_WEIGHTS = dict(open=6, open_ws=3, open_rej=2, poll=14, post=12, upgrade=4, frame=14, wsclose=3, cancel=2, send=14, disc=3, disc_all=1, api=4, adv=10, bad=5)
 
 
 def gen_history(rng, cfg, length=25, weights=None, max_sessions=4, allow_disc_handler=None):
@@ -564,6 +603,14 @@ def gen_history(rng, cfg, length=25, weights=None, max_sessions=4, allow_disc_ha
             if conns[c]['hs'] == 9:
                 conns[c]['open'] = rng.random() < 0.3
             ops.append(('frame', c, f))
+        elif k == 'cancel':
+            hs = [i for i, c in enumerate(conns) if c['open'] and c['hs'] in (0, 1)]
+            if hs and rng.random() < 0.6:
+                c = rng.choice(hs)
+                conns[c]['open'] = False
+                ops.append(('cancel', c))
+            else:
+                ops.append(('cancelpoll', pick_session()))
         elif k == 'wsclose':
             live = [i for i, c in enumerate(conns) if c['open']]
             if live:
